@@ -881,16 +881,17 @@ ViewConn == <<View, IF ops # <<>> /\ ops[Len(ops)].op = "VGetConnections" THEN o
 \* plus the projection the implementation must show after it
 Emit_Corpus == PrintT(<<"CORPUS", ToJson([ops |-> ops, obs |-> Obs(mem), dev |-> dev])>>)
 BoundRejLeaf == Bound /\ (LastIsRej => (Emit_Corpus /\ FALSE))
-NextCorpus == Emit_Corpus /\ Next
+\* (NextG: the states of the last level are emitted but not expanded -- their successors would all be discarded by Bound)
+NextCorpus == Emit_Corpus /\ NextG
 SpecCorpus == Init /\ [][NextCorpus]_vars
 \* transition corpus: one line per TRANSITION (also those into a state BFS has already seen), i.e. the first-found
 \* history of every state extended by every call enabled there. "snapshot, import, commit" ends in the same state as
 \* "import, commit" and is in no first-found history; it is in this corpus.
 Emit_Trans == Len(ops') <= MaxOps => PrintT(<<"CORPUS", ToJson([ops |-> ops', obs |-> Obs(mem'), dev |-> dev'])>>)
-NextCorpusT == Next /\ Emit_Trans
+NextCorpusT == NextG /\ Emit_Trans
 SpecCorpusT == Init /\ [][NextCorpusT]_vars
 \* restart-focused corpus: only the states reached by a Reopen are emitted (histories ending in a restart)
 Emit_AfterReopen == (ops # <<>> /\ ops[Len(ops)].op = "Reopen") => Emit_Corpus
-NextCorpusR == Emit_AfterReopen /\ Next
+NextCorpusR == Emit_AfterReopen /\ NextG
 SpecCorpusR == Init /\ [][NextCorpusR]_vars
 =============================================================================
